@@ -29,8 +29,12 @@ pub enum Kind {
     CancelPair,
     /// +1 on every cheater but the last, which gets -(|K|-1): errors cancel (|K| >= 2)
     CancelAll,
+    /// the share the signer's own code produces when its two secret nonces have the wrong sign (the stored
+    /// commitments unchanged): z_i -/+ 2(d_i + rho_i e_i)
+    NonceSignFlipped,
 }
-pub const KINDS: [Kind; 7] = [
+pub const KINDS: [Kind; 8] = [
+    Kind::NonceSignFlipped,
     Kind::PlusOne,
     Kind::Negated,
     Kind::Zero,
@@ -395,6 +399,21 @@ pub fn check_modes<C: Suite>(
     }
 }
 
+/// The share the library's own `sign` returns for nonces of the wrong sign whose stored commitments are the
+/// honest ones (the nonce object is rebuilt through its JSON form, which carries the commitments).
+pub fn flipped_nonce_share<C: Suite>(pkg: &fc::SigningPackage<C>, nonces: &fc::round1::SigningNonces<C>, kp: &fc::keys::KeyPackage<C>) -> Option<Scalar<C>> {
+    let mut v = serde_json::to_value(nonces).ok()?;
+    let d = neg::<C>(nonces.hiding().to_scalar());
+    let e = neg::<C>(nonces.binding().to_scalar());
+    v["hiding"] = serde_json::Value::from(hex::encode(sc_bytes::<C>(&d)));
+    v["binding"] = serde_json::Value::from(hex::encode(sc_bytes::<C>(&e)));
+    let forged: fc::round1::SigningNonces<C> = serde_json::from_value(v).ok()?;
+    if forged.commitments() != nonces.commitments() {
+        return None;
+    }
+    C::w_sign(pkg, &forged, kp).ok().map(|s| share_scalar::<C>(&s))
+}
+
 fn run_real<C: Suite>(c: &Case) -> Outcome {
     let mut o = Outcome::new();
     let Case::Real {
@@ -451,6 +470,15 @@ fn run_real<C: Suite>(c: &Case) -> Outcome {
             Kind::Zero => zero::<C>(),
             Kind::OtherSigner => zs[(ci + 1) % k],
             Kind::OtherSession => share_scalar::<C>(&sess_b.shares[&s[ci]]),
+            Kind::NonceSignFlipped => match flipped_nonce_share::<C>(&sess.pkg, &sess.nonces[&s[ci]], &grp.kps[&s[ci]]) {
+                Some(z) => z,
+                None => {
+                    // a library that refuses to rebuild such a nonce object leaves nothing to check here
+                    o.eval(false);
+                    o.count("nonce_flip_not_constructible", 1);
+                    return o;
+                }
+            },
             Kind::CancelPair => {
                 let d = sc_seeded_nz::<C>("delta");
                 if pos_in_k == 0 { zi + d } else { zi - d }
